@@ -216,6 +216,12 @@ Definition obs_of (res : float * Z * list (Z * bool * Z)) : word :=
 
 (* the model's trace uses the draw r = 0 for every computed delay; the implementation's
    draws are unobservable and are handled by [resolve] below *)
+(* op [2; bits MaxTokens; bits TokenRatio]: the resolver delivers a new service config (same
+   retry policy, new retryThrottling); applyServiceConfigAndBalancer builds a fresh throttler
+   with tokens = max = MaxTokens.  obs [bits tokens]. *)
+Definition parse_upd (op : word) : option tcfg :=
+  match op with [2; mt; tr] => Some (mkt (of_bits mt) (of_bits tr)) | _ => None end.
+
 Fixpoint run_from (t : tcfg) (p : rcfg) (tok : float) (ops : list word) : option (list word) :=
   match ops with
   | [] => Some []
@@ -227,7 +233,15 @@ Fixpoint run_from (t : tcfg) (p : rcfg) (tok : float) (ops : list word) : option
       | Some os => Some (obs_of res :: os)
       | None => None
       end
-    | None => None
+    | None =>
+      match parse_upd op with
+      | Some t' =>
+        match run_from t' p (tmax t') rest with
+        | Some os => Some ([to_bits (tmax t')] :: os)
+        | None => None
+        end
+      | None => None
+      end
     end
   end.
 
@@ -288,7 +302,11 @@ Fixpoint resolve (t : tcfg) (p : rcfg) (tok : float) (ops model impl : list word
         obs_of (rpc t p tok script 0%float) ::
         resolve t p (fst (fst (rpc t p tok script 0%float))) ops' model' impl'
       end
-    | None => model
+    | None =>
+      match parse_upd op with
+      | Some t' => [to_bits (tmax t')] :: resolve t' p (tmax t') ops' model' impl'
+      | None => model
+      end
     end
   | _, model, _ => model
   end.
@@ -356,6 +374,14 @@ Fixpoint clauses_from (t : tcfg) (p : rcfg) (tok : float) (i : Z) (ops obs : lis
       [(3, i, tok_in_range t tok');
        (4, i, same_outcome res code ds tb)] ++
       clauses_from t p tok' (i + 1) ops' obs'
+    | None, _ =>
+      match parse_upd op, o with
+      | Some t', [tb] =>
+        (* a service-config update: the new bucket must be inside the NEW [0, maxTokens] *)
+        let tok' := if tb =? to_bits (tmax t') then tmax t' else of_bits tb in
+        (3, i, tok_in_range t' tok') :: clauses_from t' p tok' (i + 1) ops' obs'
+      | _, _ => [(0, i, false)]
+      end
     | _, _ => [(0, i, false)]
     end
   | _, _ => [(0, i, false)]
